@@ -283,3 +283,29 @@ _ADD = {
 }
 for _p, _t in _ADD.items():
     META[_p]['text'] = META[_p]['text'] + _t
+
+# ---- additions after rounds 7 and 8
+_ADD2 = {
+    'C01': ' Ordering operators of quantities (Duration event times) are decided by cases as in C16.',
+    'C03': ' The heap discipline of the event list is a shared rule here (the horizon is decided from peek_first()); skipping the restore after a deletion is '
+           'accepted only on a path that established that the deleted entry was the last one.',
+    'C04': ' Start handshake: the flag the command thread waits for is raised by the worker only after START_EVENT was fired and STARTED recorded. A validating '
+           'call that returned normally establishes the negation of its refusal guards for the rest of the path.',
+    'C05': ' The wait / clear order of the worker wake-up is a shared rule here (a lost wake-up loses the resume).',
+    'C06': ' Values memoised for the life of the object (cached_property, lru_cache) that are computed from fields re-bound later are reported.',
+    'C07': ' Seeds depend on nothing but name, original seed / configured list and replication number (updater rules shared with C13; the current seed of a '
+           'stream is not an admissible source); a pause may not lose an event; state shared through class-level objects or module-level defaults is reported first.',
+    'C08': ' add_listener / remove_listener are interpreted over a finite abstraction of the subscription map (6 cases) and compared with their contracts; the '
+           'payload checks know plain and None-filtered copies of the payload.',
+    'C09': ' The recurrences of the third and fourth moment read the previous-step lower moments (def-use order).',
+    'C11': ' Delivery to every subscriber (loop over a copy) is a shared rule here: statistics hear of warm-up and replication end only by being notified.',
+    'C12': ' Seed wiring is decided on path summaries with self-calls walked in place; the generator also escapes as a bound method.',
+    'C13': ' The table consulted by update_seed is the constructor argument itself; a memo keyed by (name, replication) is accepted only for values computed from the key alone.',
+    'C14': ' Unbounded loops whose progress is a product of unit-interval draws must be certain to end once the product has underflowed to 0.0.',
+    'C15': ' Samplers that are a closed form g(u) of one uniform satisfy pdf(g(u)) g\'(u) = +-1 identically (Exponential, Uniform, Weibull).',
+    'C16': ' For a plain number, * and / act on the SI value through _val.',
+    'C17': ' Tables built by a pure helper from a prefix table are folded to the constants they denote before the exhaustive table rules run; _val / as_unit are decided by cases on the arguments given.',
+    'C18': ' extended_key() is built from the current parent; a memoised key is accepted only under a class-level token replaced at class level by every re-parenting.',
+}
+for _p, _t in _ADD2.items():
+    META[_p]['text'] = META[_p]['text'] + _t
